@@ -191,6 +191,10 @@ val fold_right : ('a2 -> 'a1 -> 'a1) -> 'a1 -> 'a2 list -> 'a1
 
 val existsb : ('a1 -> bool) -> 'a1 list -> bool
 
+val filter : ('a1 -> bool) -> 'a1 list -> 'a1 list
+
+val find : ('a1 -> bool) -> 'a1 list -> 'a1 option
+
 val firstn : nat -> 'a1 list -> 'a1 list
 
 val skipn : nat -> 'a1 list -> 'a1 list
@@ -235,6 +239,14 @@ val ofbool : bool -> val0
 val ofNs : n list -> val0
 
 val ofopt : ('a1 -> val0) -> 'a1 option -> val0
+
+type handler = val0 list -> val0 option
+
+val lookup : string -> (string * handler) list -> handler option
+
+val run_table : (string * handler) list -> string -> val0 -> val0 option
+
+val ofoptN : n option -> val0
 
 type dna = n list
 
@@ -330,6 +342,20 @@ val lower_of_two_128 : n
 val tbl_base_to_bits : n list
 
 val tbl_bits_to_base : n list
+
+val exts_from_single_dirs : n list
+
+val exts_merge : n list
+
+val exts_set : n list
+
+val exts_complement : n list
+
+val exts_reverse : n list
+
+val exts_single_dir : n list
+
+val exts_dir_bits : n list
 
 type kcfg = { kW : nat; kK : nat; kInt : bool }
 
@@ -483,11 +509,57 @@ val sort_by : ('a1 -> 'a1 -> bool) -> 'a1 list -> 'a1 list
 
 val dedup_by : ('a1 -> 'a1 -> bool) -> 'a1 list -> 'a1 list
 
+val u8 : n -> n
+
+val pin : n list -> nat -> n
+
+val e_from_single_dirs : n -> n -> n
+
+val e_merge : n -> n -> n
+
+val e_add : n -> n -> n
+
+val e_set : n -> bool -> n -> n option
+
+val e_dir_bits : n -> bool -> n
+
+val e_get : n -> bool -> n list
+
+val e_has_ext : n -> bool -> n -> bool
+
+val e_num_ext_dir : n -> bool -> n
+
+val e_mk_left : n -> n option
+
+val e_mk_right : n -> n option
+
+val e_mk : n -> n -> n option
+
+val e_get_unique_extension : n -> bool -> n option
+
+val e_single_dir : n -> bool -> n
+
+val e_complement : n -> n
+
+val e_reverse : n -> n
+
+val e_rc : n -> n
+
+val e_from_slice_bounds : n list -> nat -> nat -> n
+
+val exts_left : n -> n list
+
+val exts_right : n -> n list
+
+val dirb : n -> bool
+
+val sets_of : n -> val0
+
+val exts_ops : (string * handler) list
+
+val d_exts : string -> val0 -> val0 option
+
 val cfg_of : n -> n -> kcfg
-
-type handler = val0 list -> val0 option
-
-val lookup : string -> (string * handler) list -> handler option
 
 val v_kinit : val0 -> kinit option
 
@@ -502,6 +574,8 @@ val d_kmer : string -> val0 -> val0 option
 val spec_kmer_ops : nat -> (string * handler) list
 
 val d_spec_kmer : string -> val0 -> val0 option
+
+val generic_spec_ops : (string * handler) list
 
 val prefix2 : string -> string
 
